@@ -8,7 +8,8 @@ From Coq Require Import List NArith.
 From DSD Require Import Base.Str Base.Errors Base.Val Model.Peg Model.DispatchPeg
   Proofs.PegMono Proofs.PegStd Proofs.PegDoc Proofs.C13Base Proofs.C13Doc Proofs.PilLex Proofs.C13Lex
   Proofs.C13Dl Proofs.C13Ms Proofs.C13Sl Proofs.C13Cd Proofs.C13Kc Proofs.PegNum Proofs.C13Kc2 Proofs.C13Rx Proofs.C13Ib Proofs.C13Sc Proofs.C13Rej
-  Proofs.C13Full Proofs.PegTerm Proofs.C13Fuel Proofs.PegShape Proofs.PegCover Proofs.C13Cover.
+  Proofs.C13Full Proofs.PegTerm Proofs.C13Fuel Proofs.PegShape Proofs.PegCover Proofs.C13Cover
+  Proofs.PegTabs Proofs.C13Tabs Proofs.C13Open.
 From DSDGen Require Import PilGrammar.
 Import ListNotations.
 
@@ -269,22 +270,33 @@ Theorem C13_reject_unbalanced_kernel : forall s bT d junk pls b,
 Proof. exact reject_unbalanced_kernel. Qed.
 Print Assumptions C13_reject_unbalanced_kernel.
 
-(* ---- full statements not yet proved (kept visible; listed under `partial` in the evidence) ---- *)
-
-(* an opening bracket attached to a name and never closed, `x = a b( c` : refused (the loop alternative fails at the
-   missing `)`, the name is then read as a plain domain and the pattern stops at `(`) *)
-Definition C13_reject_unclosed_loop_full : Prop := forall s n0 ns (inner : list item) pls b E,
-  kc_stmt_ok s (n0 :: ns ++ 40%N :: items_text inner E) -> memc n0 idch = true -> all_in idch ns ->
-  Forall pil_blank_line pls -> blanks pil_ws b -> stmt_end E [] ->
-  no_tab (concat pls ++ b ++ kc_text s (32%N :: n0 :: ns ++ 40%N :: items_text inner E)) ->
+(* ---- an opening bracket attached to a name and never closed ---- *)
+(* `dangling Y`: Y is what follows an unclosed `name(` up to the end of the input: well-formed pattern items
+   (names, '+', closed loops of any nesting) and then either the end of the statement or another unclosed
+   `name(` followed by a dangling text.  The loop alternative fails at the missing ')', the name is read as a
+   plain domain, the pattern stops in front of '(' and nothing accepts '(' there: ParseException, for every
+   name, every nesting depth and every layout. *)
+Theorem C13_reject_unclosed_loop : forall s b1 n0 ns c st Y pls b,
+  dangling Y -> kc_stmt_ok s (b1 ++ sense_text n0 ns c st ++ LPAR :: Y) -> blanks pil_ws b1 ->
+  memc n0 idch = true -> all_in idch ns -> Forall pil_blank_line pls -> blanks pil_ws b ->
+  is_prefix kw_state (kc_n0 s :: kc_ns s) = false -> is_prefix kw_macrostate (kc_n0 s :: kc_ns s) = false ->
+  no_tab (concat pls ++ b ++ kc_text s (b1 ++ sense_text n0 ns c st ++ LPAR :: Y)) ->
   exists f0, forall f, f0 <= f ->
-    parse_pil_fuel f (concat pls ++ b ++ kc_text s (32%N :: n0 :: ns ++ 40%N :: items_text inner E)) = err eParse.
+    parse_pil_fuel f (concat pls ++ b ++ kc_text s (b1 ++ sense_text n0 ns c st ++ LPAR :: Y)) = err eParse.
+Proof. exact reject_unclosed_loop. Qed.
+Print Assumptions C13_reject_unclosed_loop.
 
-(* layouts with tabs: every *_parse_string theorem above without its `no_tab` hypothesis (parse_string expands
-   tabs to spaces before parsing; the expanded text is again a rendering with other blank runs), e.g. *)
-Definition C13_roundtrip_dl_domain_tabs_full : Prop := forall s y b E,
-  dl_stmt_ok s -> dl_layout_ok y -> blanks pil_ws b -> stmt_end E [] ->
-  exists f0, forall f, f0 <= f -> parse_pil_fuel f (b ++ dl_render s y ++ E) = vals [dl_tree s].
+(* the same when the unclosed name is the first item of the pattern: `X = a( ...` *)
+Theorem C13_reject_unclosed_first : forall x0 xs b2 b1 n0 ns c st Y pls b,
+  dangling Y -> memc x0 idch = true -> all_in idch xs -> not_keyword_led (x0 :: xs) ->
+  is_prefix kw_state (x0 :: xs) = false -> is_prefix kw_macrostate (x0 :: xs) = false ->
+  blanks pil_ws b2 -> blanks pil_ws b1 -> memc n0 idch = true -> all_in idch ns ->
+  Forall pil_blank_line pls -> blanks pil_ws b ->
+  no_tab (concat pls ++ b ++ open_first_text x0 xs b2 b1 n0 ns c st Y) ->
+  exists f0, forall f, f0 <= f ->
+    parse_pil_fuel f (concat pls ++ b ++ open_first_text x0 xs b2 b1 n0 ns c st Y) = err eParse.
+Proof. exact reject_unclosed_first. Qed.
+Print Assumptions C13_reject_unclosed_first.
 
 (* Termination within the default fuel: parse_pil (fuel (|expandtabs text| + 2) * |table|) never
    answers OutOfFuel, for any text whatsoever.  Proved generically (Proofs/PegTerm.v): a
@@ -321,3 +333,80 @@ Theorem C13_token_language_sound : forall g full f i cp p p' t,
   parse g full f i cp p = POk p' t -> G g i t.
 Proof. exact parse_gen. Qed.
 Print Assumptions C13_token_language_sound.
+
+(* ---- layouts with tabs ---- *)
+(* parse_pil expands tabs (str.expandtabs) before parsing.  The layouts of all round trips are blank runs
+   over the grammar's whitespace set {tab, CR, space}; the theorems below are the *_parse_string theorems
+   WITHOUT their `no_tab` hypothesis: the expansion of a rendering is a rendering with other blank runs and the
+   same token tree (Proofs/PegTabs.v, Proofs/C13Tabs.v).  Tabs inside comments are covered as well. *)
+Theorem C13_roundtrip_dl_domain_tabs : forall s y b E,
+  dl_stmt_ok s -> dl_layout_ok y -> blanks pil_ws b -> stmt_end E [] ->
+  exists f0, forall f, f0 <= f -> parse_pil_fuel f (b ++ dl_render s y ++ E) = vals [dl_tree s].
+Proof. exact roundtrip_dl_domain_tabs. Qed.
+Print Assumptions C13_roundtrip_dl_domain_tabs.
+
+Theorem C13_roundtrip_sl_domain_tabs : forall s y b E,
+  sl_stmt_ok s -> sl_layout_ok y -> blanks pil_ws b -> stmt_end E [] ->
+  exists f0, forall f, f0 <= f -> parse_pil_fuel f (b ++ sl_render s y ++ E) = vals [sl_tree s].
+Proof. exact roundtrip_sl_domain_tabs. Qed.
+Print Assumptions C13_roundtrip_sl_domain_tabs.
+
+Theorem C13_roundtrip_macrostate_tabs : forall s y b E,
+  ms_stmt_ok s -> ms_layout_ok y -> blanks pil_ws b -> stmt_end E [] ->
+  exists f0, forall f, f0 <= f -> parse_pil_fuel f (b ++ ms_render s y ++ E) = vals [ms_tree s].
+Proof. exact roundtrip_macrostate_tabs. Qed.
+Print Assumptions C13_roundtrip_macrostate_tabs.
+
+Theorem C13_roundtrip_composite_domain_tabs : forall s y b E,
+  cd_stmt_ok s -> cd_layout_ok y -> blanks pil_ws b -> stmt_end E [] ->
+  exists f0, forall f, f0 <= f -> parse_pil_fuel f (b ++ cd_render s y ++ E) = vals [cd_tree s].
+Proof. exact roundtrip_composite_domain_tabs. Qed.
+Print Assumptions C13_roundtrip_composite_domain_tabs.
+
+Theorem C13_roundtrip_reaction_tabs : forall s y b E,
+  rx_stmt_ok s -> rx_layout_ok y -> blanks pil_ws b -> stmt_end E [] ->
+  exists f0, forall f, f0 <= f -> parse_pil_fuel f (b ++ rx_render s y ++ E) = vals [rx_tree s].
+Proof. exact roundtrip_reaction_tabs. Qed.
+Print Assumptions C13_roundtrip_reaction_tabs.
+
+Theorem C13_roundtrip_reaction_infobox_tabs : forall s y i b E,
+  rx_stmt_ok s -> rx_layout_ok y -> infobox_ok i -> blanks pil_ws b -> stmt_end E [] ->
+  exists f0, forall f, f0 <= f -> parse_pil_fuel f (b ++ rxi_render s y i ++ E) = vals [rxi_tree s i].
+Proof. exact roundtrip_reaction_infobox_tabs. Qed.
+Print Assumptions C13_roundtrip_reaction_infobox_tabs.
+
+Theorem C13_roundtrip_kernel_complex_tabs : forall s b E,
+  blanks pil_ws b -> stmt_end E [] -> kc_stmt_ok s E ->
+  exists f0, forall f, f0 <= f -> parse_pil_fuel f (b ++ kc_render s ++ E) = vals [kc_tree s].
+Proof. exact roundtrip_kernel_complex_tabs. Qed.
+Print Assumptions C13_roundtrip_kernel_complex_tabs.
+
+Theorem C13_roundtrip_kernel_concentration_tabs : forall s c b E,
+  blanks pil_ws b -> stmt_end E [] -> conc_ok c -> kc_stmt_ok s (conc_text c ++ E) ->
+  exists f0, forall f, f0 <= f -> parse_pil_fuel f (b ++ kcc_render s c ++ E) = vals [kcc_tree s c].
+Proof. exact roundtrip_kernel_concentration_tabs. Qed.
+Print Assumptions C13_roundtrip_kernel_concentration_tabs.
+
+(* structure / complex: the dot-bracket token is a Word over "( ) . +" AND the space, so blanks after it belong to
+   the token; as in the tab-free theorems the statement end E must not start with a character of that class,
+   and with tabs it must not start with a tab either (the tab becomes spaces, which the token absorbs) ... *)
+Theorem C13_roundtrip_structure_tabs : forall s y b E,
+  st_ok s y E -> blanks pil_ws b -> stmt_end E [] -> nohead dbch E -> nohead [TAB] E ->
+  exists f0, forall f, f0 <= f -> parse_pil_fuel f (b ++ st_kw ++ st_tail_text s y E) = vals [st_tree s].
+Proof. exact roundtrip_structure_tabs. Qed.
+Print Assumptions C13_roundtrip_structure_tabs.
+
+Theorem C13_roundtrip_complex_tabs : forall s y b E,
+  cx_ok s y -> blanks pil_ws b -> stmt_end E [] -> nohead dbch E -> nohead [TAB] E ->
+  exists f0, forall f, f0 <= f -> parse_pil_fuel f (b ++ cx_kw ++ cx_tail_text s y E) = vals [cx_tree s].
+Proof. exact roundtrip_complex_tabs. Qed.
+Print Assumptions C13_roundtrip_complex_tabs.
+
+(* ... REFUTATION of the unguarded statement: `structure x = a : .<TAB><NL>` does not give the tree of the
+   rendering (dot-bracket "."): the tab is expanded to five spaces which end up in the dot-bracket token.
+   (A blank after the dot-bracket does the same; to be replayed on the implementation.) *)
+Theorem C13_structure_tab_after_dotbracket :
+  parse_pil (st_kw ++ [32; 120; 32; 61; 32; 97; 32; 58; 32; 46; 9; 10]%N)
+  = vals [TList [TStr tag_sc; TStr [120%N]; TList [TStr [97%N]]; TStr [46; 32; 32; 32; 32; 32]%N]].
+Proof. exact structure_tab_after_dotbracket. Qed.
+Print Assumptions C13_structure_tab_after_dotbracket.
